@@ -3,10 +3,13 @@ package c17
 import (
 	"encoding/json"
 	"fmt"
+	"math/rand/v2"
 	"strconv"
 	"strings"
 	"sync"
+	"sync/atomic"
 	"time"
+	"unsafe"
 
 	"github.com/AdguardTeam/golibs/syncutil"
 
@@ -44,13 +47,42 @@ func (v *onceVec) isZero(k string) bool {
 
 // inst describes one instantiation OnceConstructor[K, V] the schedules are
 // replayed on: how model keys become K, how a fresh distinguishable non-zero V
-// is made, and how a V is read back (0 = the zero value of V).
+// is made, how a V is read back (0 = the zero value of V, < 0 = a value the
+// harness never constructed) and how two Vs are compared for identity.
 type inst[K comparable, V any] struct {
 	name string
 	key  func(string) K
 	str  func(K) string
 	mk   func(id int) V
 	id   func(V) int
+	// same: identity of two values; nil means ==  (V comparable at run time).
+	same func(a, b V) bool
+}
+
+func (in inst[K, V]) identical(a, b V) bool {
+	if in.same != nil {
+		return in.same(a, b)
+	}
+	return any(a) == any(b)
+}
+
+// onceInst is what the commands need from an instantiation.
+type onceInst interface {
+	instName() string
+	replay(v *onceVec, wait time.Duration) outcome
+	raceRound(round int, seedRng *rand.Rand, res *vh.Result) (gets, nkeys int, err error)
+	stressRound(round int, seedRng *rand.Rand, clock *atomic.Int64, tr *vh.Trace, res *vh.Result) (gets int, err error)
+}
+
+func (in inst[K, V]) instName() string { return in.name }
+func (in inst[K, V]) replay(v *onceVec, wait time.Duration) outcome {
+	return replayOnceG(v, wait, in)
+}
+func (in inst[K, V]) raceRound(round int, seedRng *rand.Rand, res *vh.Result) (int, int, error) {
+	return raceOnceRound(in, round, seedRng, res)
+}
+func (in inst[K, V]) stressRound(round int, seedRng *rand.Rand, clock *atomic.Int64, tr *vh.Trace, res *vh.Result) (int, error) {
+	return stressOnceRound(in, round, seedRng, clock, tr, res)
 }
 
 // idErr is a distinguishable error value.
@@ -68,6 +100,58 @@ func idPtr(x *int) int {
 func ident(s string) string { return s }
 func keyInt(s string) int   { return int(s[0]-'a') + 1 }
 func strInt(k int) string   { return string(rune('a' + k - 1)) }
+
+// Opaque values.  OnceConstructor must treat V as opaque: a constructed value
+// may itself be a function (also one whose type equals the loader's,
+// func() V), a channel, a map, a struct holding a function.  Such values are
+// identified WITHOUT invoking them, by the pointer word of the value (the
+// closure / channel / map object), registered when the harness constructs it.
+// Every constructed function counts its invocations in userFnInvoked: the
+// library must never call a value it merely stores.
+var (
+	opaqueMu      sync.Mutex
+	opaqueIDs     = map[unsafe.Pointer]int{}
+	userFnInvoked atomic.Int64
+)
+
+// dataWord is the pointer word of a pointer-shaped value (func, chan, map) boxed in a.
+func dataWord(a any) unsafe.Pointer { return (*[2]unsafe.Pointer)(unsafe.Pointer(&a))[1] }
+
+func regOpaque(a any, id int) {
+	opaqueMu.Lock()
+	opaqueIDs[dataWord(a)] = id
+	opaqueMu.Unlock()
+}
+
+// opaqueID returns the id the value was registered with, -1 for a foreign value.
+func opaqueID(a any) int {
+	opaqueMu.Lock()
+	defer opaqueMu.Unlock()
+	if id, ok := opaqueIDs[dataWord(a)]; ok {
+		return id
+	}
+	return -1
+}
+
+func resetOpaque() {
+	opaqueMu.Lock()
+	clear(opaqueIDs)
+	opaqueMu.Unlock()
+}
+
+func mkFnInt(id int) func() int {
+	f := func() int { userFnInvoked.Add(1); return id }
+	regOpaque(f, id)
+	return f
+}
+
+// fnBox is a struct value holding a function.
+type fnBox struct {
+	f   func() int
+	tag int
+}
+
+func sameWord[V any](a, b V) bool { return dataWord(any(a)) == dataWord(any(b)) }
 
 var (
 	instPtr = inst[string, *int]{name: "OnceConstructor[string, *int]", key: ident, str: ident, mk: mkPtr, id: idPtr}
@@ -94,22 +178,86 @@ var (
 			return -1
 		}}
 	instIntKey = inst[int, *int]{name: "OnceConstructor[int, *int]", key: keyInt, str: strInt, mk: mkPtr, id: idPtr}
+
+	// V = any holding FUNCTION values: func() any (the loader's own type for
+	// V = any) returning a fresh object per call, func(), func() int.
+	instAnyFn = inst[string, any]{name: "OnceConstructor[string, any] with function values", key: ident, str: ident,
+		mk: func(id int) (a any) {
+			// (stress ids are 1 + 1000*goroutine + call: mix the goroutine in)
+			switch (id + id/1000) % 4 {
+			case 2:
+				a = func() { userFnInvoked.Add(1); _ = id }
+			case 3:
+				a = func() int { userFnInvoked.Add(1); return id }
+			default:
+				a = func() any { userFnInvoked.Add(1); return mkPtr(-id) }
+			}
+			regOpaque(a, id)
+			return a
+		},
+		id: func(a any) int {
+			switch a.(type) {
+			case nil:
+				return 0
+			case func() any, func(), func() int:
+				return opaqueID(a)
+			}
+			return -1
+		},
+		same: func(a, b any) bool { return dataWord(a) == dataWord(b) && (a == nil) == (b == nil) }}
+	instFn = inst[string, func() int]{name: "OnceConstructor[string, func() int]", key: ident, str: ident,
+		mk: mkFnInt,
+		id: func(f func() int) int {
+			if f == nil {
+				return 0
+			}
+			return opaqueID(f)
+		},
+		same: sameWord[func() int]}
+	instBox = inst[string, fnBox]{name: "OnceConstructor[string, struct{f func() int; tag int}]", key: ident, str: ident,
+		mk: func(id int) fnBox { return fnBox{f: mkFnInt(id), tag: id} },
+		id: func(b fnBox) int {
+			if b.f == nil && b.tag == 0 {
+				return 0
+			}
+			if b.f == nil || opaqueID(b.f) != b.tag {
+				return -1
+			}
+			return b.tag
+		},
+		same: func(a, b fnBox) bool { return a.tag == b.tag && sameWord(a.f, b.f) }}
+	instChan = inst[string, chan int]{name: "OnceConstructor[string, chan int]", key: ident, str: ident,
+		mk: func(id int) chan int { c := make(chan int, 1); regOpaque(c, id); return c },
+		id: func(c chan int) int {
+			if c == nil {
+				return 0
+			}
+			return opaqueID(c)
+		}}
+	instMap = inst[string, map[string]int]{name: "OnceConstructor[string, map[string]int]", key: ident, str: ident,
+		mk: func(id int) map[string]int { m := map[string]int{"id": id}; regOpaque(m, id); return m },
+		id: func(m map[string]int) int {
+			if m == nil {
+				return 0
+			}
+			return opaqueID(m)
+		},
+		same: sameWord[map[string]int]}
 )
 
 // instNames lists the instantiations; "cycle" picks one per schedule.
-var instNames = []string{"ptr", "error", "any", "intkey"}
+var instNames = []string{"ptr", "anyfn", "error", "fn", "any", "box", "intkey", "chan", "map"}
+
+var instByName = map[string]onceInst{"ptr": instPtr, "error": instErr, "any": instAny, "intkey": instIntKey,
+	"anyfn": instAnyFn, "fn": instFn, "box": instBox, "chan": instChan, "map": instMap}
 
 // replayOnce forces one schedule on a fresh OnceConstructor of the named instantiation.
 func replayOnce(v *onceVec, wait time.Duration, which string) outcome {
-	switch which {
-	case "error":
-		return replayOnceG(v, wait, instErr)
-	case "any":
-		return replayOnceG(v, wait, instAny)
-	case "intkey":
-		return replayOnceG(v, wait, instIntKey)
+	in, ok := instByName[which]
+	if !ok {
+		in = instPtr
 	}
-	return replayOnceG(v, wait, instPtr)
+	return in.replay(v, wait)
 }
 
 func (v *onceVec) key() string {
@@ -168,6 +316,8 @@ type onceRun[K comparable, V any] struct {
 	// controller only while p is parked or finished).
 	res [][]V
 	log []string
+	// fnCalls0: userFnInvoked when the run started
+	fnCalls0 int64
 }
 
 func pname(p int) string { return "p" + strconv.Itoa(p) }
@@ -237,7 +387,9 @@ func (r *onceRun[K, V]) expectArrival(p int, to string, callsDone int) (sched.St
 
 // replayOnceG forces one schedule on a fresh OnceConstructor[K, V].
 func replayOnceG[K comparable, V any](v *onceVec, wait time.Duration, in inst[K, V]) (o outcome) {
+	resetOpaque()
 	r := newOnceRun(v, in)
+	r.fnCalls0 = userFnInvoked.Load()
 	s := r.c.s
 	syncutil.VerifGate = func(point string) { s.Gate(point) }
 	defer func() { syncutil.VerifGate = nil }()
@@ -429,6 +581,9 @@ func deref(id int) any {
 func (r *onceRun[K, V]) apiCheck() (class, what string) {
 	r.mu.Lock()
 	defer r.mu.Unlock()
+	if n := userFnInvoked.Load() - r.fnCalls0; n != 0 {
+		return "violation", fmt.Sprintf("the library invoked a constructed VALUE %d times: the value the constructor returned is a function and must only be stored and returned (%s)", n, r.in.name)
+	}
 	for p := 1; p <= r.v.NP; p++ {
 		plan := r.v.Plan[p-1]
 		if pv := r.c.s.PanicOf(pname(p)); pv != nil {
@@ -443,7 +598,7 @@ func (r *onceRun[K, V]) apiCheck() (class, what string) {
 			}
 			// identity: the very object the single constructor call returned (for
 			// a zero-valued construction: the zero value)
-			if x, c := r.res[p][i], r.ptrs[k][0]; any(x) != any(c) || r.in.id(x) != r.in.id(c) {
+			if x, c := r.res[p][i], r.ptrs[k][0]; !r.in.identical(x, c) || r.in.id(x) != r.in.id(c) {
 				return "violation", fmt.Sprintf("Get(%q) #%d of p%d returned %v, not the single constructed result %v (%s)",
 					k, i+1, p, deref(r.in.id(x)), deref(r.in.id(c)), r.in.name)
 			}
